@@ -24,7 +24,15 @@ def check(run):
     run.coverage["rule"] = (
         "timing: histories with clock ticks on a real handler with timeout 500 ms (tick unit 50 ms); between two long ticks (30 units) the "
         "short ticks add up to <= 3 units so every observation is made <= 0.3 or >= 3 timeouts after a timer was armed; exh-N2-P1-d3(+conn): "
-        "every history of depth 3 (Close in every position); rand-N2/N3. Socket sessions (sock): scripted client/server sessions on localhost, "
+        "every history of depth 3 (Close in every position); rand-N2/N3. timing-paged: multi-page responses whose pages arrive every 0.2-0.3 "
+        "timeouts while the whole response takes 2.4-2.7 timeouts (6.3 in thorough), alone, two interleaved, through processIncomingFrame, "
+        "and followed by silence (must time out then, not before); verdict timeout-early = a request failed with the timeout error less than "
+        "timeout/2 after a frame for it, all earlier gaps below timeout/2, by the harness's own clock (so load can only suppress the "
+        "verdict); a timing history whose harness clock shows more than 0.8 timeouts where the model's clock has less than one (or less "
+        "than 1.2 where it has more) is re-run, at most twice, and left out of the correspondence if still off schedule. reuse-timeout: the "
+        "id of a timed-out request is sent again before its late final frame. flood-conn: more EVENT frames than the events queue holds. "
+        "Every call into the library runs under a watchdog (2 s of normally scheduled waiting): verdicts receiver-blocked / send-blocked / "
+        "close-hangs name the history and the step. Socket sessions (sock): scripted client/server sessions on localhost, "
         "close injected from the client, the server or the peer socket at each step boundary, goroutine count compared with the baseline "
         "after bounded waits - exercised, not proved. non-trivial = at least one request accepted and one other kind of outcome")
     il.verdict(run, "C16", broken, findings)
